@@ -1,6 +1,7 @@
 package props
 
 import (
+	"log/slog"
 	"context"
 	"errors"
 	"fmt"
@@ -42,6 +43,10 @@ type c08CLIParams struct {
 	Conc    int    `json:"conc"`
 	ViaFile bool   `json:"via_file"`
 	Profile string `json:"profile"` // "" | cpuprofile | memprofile
+	// FailVia: the way failing iterations (and a failing setup) fail (0 = t.Fail / t.FailNow)
+	FailVia int `json:"fail_via,omitempty"`
+	// Quiet: the run gets a logger that is disabled for every level (f1.WithLogger) and --verbose
+	Quiet bool `json:"quiet,omitempty"`
 }
 
 type c08RunVerdictParams struct {
@@ -259,10 +264,28 @@ func init() {
 				if k%3 == 1 {
 					p.Profile = pick(r, "cpuprofile", "memprofile")
 				}
+				if (p.Mode == "users" && !p.ViaFile) || p.Mode == "setupfail" {
+					// the verdict counts failures however they were reported, and whatever the logger shows
+					p.FailVia = pick(r, 0, engine.BErrorf, engine.BAssert, engine.BError, engine.BFatalf, engine.BRequire, engine.BPanicString)
+					p.Quiet = r.IntN(2) == 0
+				}
 				c := core.MkCase("C08", "cli", k, seed, p)
 				c.Solo = true
 				c.TimeoutMS = 60000
 				cs = append(cs, c)
+			}
+			// failures that are reported through the logging APIs, into a logger that shows nothing
+			for i, via := range []int{engine.BErrorf, engine.BAssert, engine.BError, engine.BFatalf} {
+				for j, mode := range []string{"users", "setupfail"} {
+					if tier == "quick" && i >= 2 && j == 1 {
+						continue
+					}
+					p := c08CLIParams{Mode: mode, N: 20, Fail: 3 + i, MaxF: pick(r, 0, 2), Conc: 2, FailVia: via, Quiet: true}
+					c := core.MkCase("C08", "cli", 900+2*i+j, seed, p)
+					c.Solo = true
+					c.TimeoutMS = 60000
+					cs = append(cs, c)
+				}
 			}
 			nrv := 10
 			if tier == "thorough" {
@@ -300,11 +323,21 @@ func c08Result(p, f, d uint64, maxF uint64, maxR int, ignore bool, errs int) *ru
 	res := run.NewResult(options.RunOptions{
 		Scenario: "s", MaxFailures: maxF, MaxFailuresRate: maxR, IgnoreDropped: ignore,
 	}, views.New(), stats)
+	// the verdict is about counts: measured durations of 0 ns (coarse clock) are as good as any
+	dur := func(i uint64) int64 {
+		switch (p + 3*f + 7*d + uint64(maxR)) % 3 {
+		case 0:
+			return 0
+		case 1:
+			return int64(i % 2)
+		}
+		return 1000
+	}
 	for i := uint64(0); i < p; i++ {
-		stats.Record(metrics.SuccessResult, 1000)
+		stats.Record(metrics.SuccessResult, dur(i))
 	}
 	for i := uint64(0); i < f; i++ {
-		stats.Record(metrics.FailedResult, 1000)
+		stats.Record(metrics.FailedResult, dur(i))
 	}
 	for i := uint64(0); i < d; i++ {
 		stats.Record(metrics.DroppedResult, 0)
@@ -434,6 +467,14 @@ func c08Seeded(c *core.Case, o *core.Outcome) {
 	o.Sample = map[string]any{"last_triple": last, "count": sp.N}
 }
 
+// quietHandler is a slog handler that is disabled for every level.
+type quietHandler struct{}
+
+func (quietHandler) Enabled(context.Context, slog.Level) bool  { return false }
+func (quietHandler) Handle(context.Context, slog.Record) error { return nil }
+func (h quietHandler) WithAttrs([]slog.Attr) slog.Handler      { return h }
+func (h quietHandler) WithGroup(string) slog.Handler           { return h }
+
 // c08CLI runs the real CLI and compares the returned error with the reference.
 func c08CLI(c *core.Case, o *core.Outcome) {
 	var p c08CLIParams
@@ -449,6 +490,10 @@ func c08CLI(c *core.Case, o *core.Outcome) {
 			t.Cleanup(func() { engine.Behave(t, kind) })
 		}
 		if p.Mode == "setupfail" {
+			if p.FailVia != 0 {
+				engine.Behave(t, p.FailVia)
+				return func(*f1testing.T) { started.Add(1) }
+			}
 			t.FailNow()
 		}
 		return func(t *f1testing.T) {
@@ -463,6 +508,10 @@ func c08CLI(c *core.Case, o *core.Outcome) {
 			}
 			if int(n) <= p.Fail {
 				failedPlanned.Add(1)
+				if p.FailVia != 0 {
+					engine.Behave(t, p.FailVia)
+					return
+				}
 				t.Fail()
 				return
 			}
@@ -499,7 +548,12 @@ func c08CLI(c *core.Case, o *core.Outcome) {
 		defer os.Remove(pf)
 		args = append([]string{"--" + p.Profile, pf}, args...)
 	}
-	err := f1.New().Add("sc", scenario).ExecuteWithArgs(args)
+	inst := f1.New()
+	if p.Quiet {
+		inst = inst.WithLogger(slog.New(quietHandler{}))
+		args = append(args, "--verbose")
+	}
+	err := inst.Add("sc", scenario).ExecuteWithArgs(args)
 	o.Events += started.Load() + 1
 	o.AddObs("cli_runs", 1)
 	desc := fmt.Sprintf("%+v args=%v", p, args)
